@@ -181,7 +181,8 @@ def run(ctx):
     gt = IRGen(ctx.rng, knobs(**tame))
     gta = IRGen(ctx.rng, knobs(argparse_domain=True, **tame))
     seen_chains = set()
-    for rep in range(per_chain):
+    for local_rep in range(per_chain):
+        rep = local_rep * ctx.shard[1] + ctx.shard[0]  # global repetition index (shards differ)
         for kinds in chains:
             arg = "argparse" in kinds
             faithful = rep % 4 in (2, 3)
